@@ -344,6 +344,10 @@ def check(tier: str) -> Result:
     # tests are exact, decisive, and guard the cell that is read (rules/bounds_rules.py)
     from . import bounds_rules
     n_bd = bounds_rules.add_obligations(res, tree, "C05.R7", scope="all")
+    from . import move_rules as _mr
+    n_re = _mr.reencoding_obligations(res, tree, "C05.R8")
+    from . import lbf_rules as _lbf
+    _lbf.occupancy_obligations(res, tree, "C05.R9")
     res.analysed = {"mask_forbidden_action_ignored": n_b, "terminate_on_invalid": TERMINATE_ON_INVALID, "untouched_state": list(UNTOUCHED) + ["Cleaner"],
                     "ignore_invalid": list(IGNORE) + ["Game2048", "RobotWarehouse"], "sites": n_sites}
     res.assumptions = ["lax.cond / select / where pick their else-alternative when the guard is false",
